@@ -18,13 +18,14 @@ RULE = (
     "zero-padded content) and is a whole number of blocks; (b) read_file with the key returns a component flagged encrypted with blob[:declared] == "
     "content[:declared]; (c) needle scan of the written binary for session key, security code, customer key and every 8-byte plaintext window with 8 "
     "distinct byte values that does not also occur in the file's public parts; (d) with the cipher un-registered or raising, writing raises and the stream holds no plaintext window. "
+    "(e) repeated use: the same component object in a second file under another key, the same file object written again under another key, the component's content replaced through its attributes and the file written again - each write stores the ciphertext of the content as it is then under the key of that write. "
     "Non-trivial = content length not a multiple of 16, or trailing 00 run, or all-zero; distinct by case hash."
 )
 ASSUMPTIONS = [
     "secrecy is decided functionally (stored bytes equal the reference ciphertext; no secret needle occurs); cryptographic strength of zero-IV CBC is out of scope",
     "encrypted components are compared on the declared length only (stored/returned blob may be zero-padded)",
 ]
-REQUIRED_CLASSES = ["len%16!=0", "trailing00>=1", "all-zero", "framing=bec2", "framing=bf3", "via=set_config", "cipher=unregistered", "cipher=raising", "trailing00>=16", "has-needles", "retry-after-failure", "pre-existing-plain-config", "flag-without-enc-tag", "content>4KiB", "readfail=ValueError", "readfail=short-key"]
+REQUIRED_CLASSES = ["rewrite-after-content-replaced", "len%16!=0", "trailing00>=1", "all-zero", "framing=bec2", "framing=bf3", "via=set_config", "cipher=unregistered", "cipher=raising", "trailing00>=16", "has-needles", "retry-after-failure", "pre-existing-plain-config", "flag-without-enc-tag", "content>4KiB", "readfail=ValueError", "readfail=short-key"]
 
 ENC_DESC = [(0xC3, b"\x03"), (0xC2, b"\x02"), (0xC1, b"\x03"), (0xC5, b"\x01")]
 # "marked for session-key encryption" is the component's flag; the ENC tag normally accompanies it, but the object model does not tie them:
@@ -195,6 +196,37 @@ def check(case, rec):
         raise Violation("writing the first file again raised %s: %s" % (type(e).__name__, e))
     if framing == "bf3" and text_again != text:
         raise Violation("the first file written again (after its component was also written in another file under another key) differs from its first text")
+    # REPEATED USE: the same file object written under ANOTHER key, then the component's content REPLACED (public attributes blob /
+    # actual_len) and the file written again under the first key: every write stores the ciphertext of the content as it is then, under the
+    # key of that write - nothing remembered from an earlier write
+    if framing == "bf3":
+        def stored_now(k, when):
+            s3 = io.StringIO()
+            try:
+                if k is None:
+                    f.write_file(s3)  # the DEFAULT session key (16 zero bytes), as Bf3File.write_file(f) uses it
+                else:
+                    f.write_file(s3, k)
+                _, b3, _ = M.parse_text_strict(s3.getvalue())
+                return M.parse_bf3_strict(b3, k if k is not None else bytes(16))[idx]
+            except M.Reject as e:
+                raise Violation("%s: written file is malformed: %s" % (when, e))
+            except Exception as e:
+                raise Violation("%s: writing raised %s: %s" % (when, type(e).__name__, e))
+
+        if stored_now(key2, "same file object written under another key")["stored"] != ossl.cbc_encrypt(key2, ossl.zeropad(content)):
+            raise Violation("the same FILE object written a second time under another session key does not store the ciphertext under that key")
+        if stored_now(None, "same file object written with the default session key")["stored"] != ossl.cbc_encrypt(bytes(16), ossl.zeropad(content)):
+            raise Violation("the same file object written with the default session key does not store the ciphertext under that key")
+        content2 = bytes(b ^ 0x6B for b in content[::-1]) + b"\x01" * (len(content) % 3)
+        comp.blob, comp.actual_len = content2, len(content2)
+        for kx, kname in ((None, "the default key (the key of the previous write)"), (key2, "the second key"), (key, "the first key")):
+            got3 = stored_now(kx, "file written again after the component's content was replaced")
+            kx = kx if kx is not None else bytes(16)
+            if got3["stored"] != ossl.cbc_encrypt(kx, ossl.zeropad(content2)) or got3["actual_len"] != len(content2):
+                raise Violation("after the component's content was replaced (blob / actual_len attributes) the file written again under %s stores %s.., not the ciphertext of the NEW content %s.." % (
+                    kname, got3["stored"][:16].hex(), ossl.cbc_encrypt(kx, ossl.zeropad(content2))[:16].hex()))
+        rec.cls("rewrite-after-content-replaced")
     if case["via"] == "direct" and case.get("desc_kind", "enc") != "enc":
         rec.cls("flag-without-enc-tag")
         return
